@@ -27,6 +27,8 @@ func runC09(c *Ctx) {
 	r09_8(c, "R09.8")
 	if c.Unix() {
 		r09_9(c, "R09.9")
+		// true stats: device numbers decoded in full (shared with C02)
+		r02_8(c, "R09.10")
 	}
 }
 
